@@ -53,7 +53,16 @@ def const_scalar():
 
 def scalar_expr(ctx, depth=2, allow_none=True):
     d = ctx.draw
-    choice = d(st.integers(0, 19 if depth > 0 else 5))
+    choice = d(st.integers(0, 20 if depth > 0 else 5))
+    if choice == 20:
+        # a parameter whose default value is the template variable of the
+        # same name (or another one)
+        p = d(st.sampled_from(SCALAR_VARS + ["x"]))
+        v = p if p != "x" and d(st.booleans()) else d(
+            st.sampled_from(SCALAR_VARS))
+        return ["lambdadef", p, ["var", v], d(st.sampled_from([
+            ["var", p], ["call", "str", [["var", p]]],
+            ["binop", "==", ["var", p], ["var", "s1"]]]))]
     if choice >= 18:
         # a callable that the object offers as an ITEM only (mapping key /
         # __getitem__), or as a real attribute, called at once
